@@ -4,6 +4,7 @@
 #![allow(clippy::all)]
 mod bind;
 mod game;
+mod hiding;
 mod indep;
 mod ledger;
 mod libl;
@@ -84,6 +85,10 @@ fn real_main() {
         "ledger" => {
             let thorough = a.get("tier").map(|t| t == "thorough").unwrap_or(false);
             write_events(&a["out"], &ledger::run(seed, thorough));
+        }
+        "hiding" => {
+            let thorough = a.get("tier").map(|t| t == "thorough").unwrap_or(false);
+            write_events(&a["out"], &hiding::run(seed, thorough));
         }
         "c18" => {
             let thorough = a.get("tier").map(|t| t == "thorough").unwrap_or(false);
